@@ -471,3 +471,9 @@ def dec_out(w):
     if w["t"] in ("exc", "parse", "ok", "none"):
         return dict(w)
     return dec(w)
+
+
+def evalx_root(prog):
+    from . import evalx
+    k = evalx.node_kinds(prog)
+    return k[0] if k else "lit"
